@@ -624,15 +624,13 @@ func (c *eCase) run(mode string) []reqRec {
 				rec.fin = "err"
 			}
 		}()
-		st := pe.GetState()
-		var ca *cache.Cache
-		if m := pe.GetMemory(); m != nil {
-			ca, _ = m.(*cache.Cache)
-		}
-		if st != nil && ca != nil {
-			fillRec(&rec, st, ca, rs)
+		// what is observable after the request is what the store now holds for the session
+		pe2 := persist.NewPersister(store).WithContent(state.NewState(uint32(c.flags)), cache.NewCache())
+		if err := pe2.Load(cfg.SessionId); err == nil {
+			fillRec(&rec, pe2.GetState(), pe2.GetMemory().(*cache.Cache), rs)
 		} else {
 			rec.state = "nostate"
+			rec.calls, rec.lookups = rs.calls, rs.lookups
 		}
 		recs = append(recs, rec)
 		if rec.x == "panic" || rec.f == "panic" || rec.fin == "panic" {
@@ -665,6 +663,25 @@ func (r reqRec) line(pers bool) string {
 	s := fmt.Sprintf("x=%s c=%s f=%s o=%s", r.x, b01(r.cont), r.f, hx(r.out))
 	if pers {
 		s += " fin=" + r.fin
+	}
+	if r.state == "nostate" {
+		cl := "-"
+		if len(r.calls) > 0 {
+			var cs []string
+			for _, c := range r.calls {
+				cs = append(cs, hx([]byte(c.sym))+":"+optB(c.input, c.input == nil)+":"+optS(c.lang))
+			}
+			cl = strings.Join(cs, ",")
+		}
+		lk := "-"
+		if len(r.lookups) > 0 {
+			var ls []string
+			for _, l := range r.lookups {
+				ls = append(ls, l.kind+":"+hx([]byte(l.sym))+":"+optS(l.lang))
+			}
+			lk = strings.Join(ls, ",")
+		}
+		return s + " nostate cl=" + cl + " lk=" + lk
 	}
 	return s + " " + r.state
 }
